@@ -34,16 +34,21 @@ fn real_decode(stream: &[u8], older: &[u8], tmp: &std::path::Path) -> Option<Vec
 
 fn args_huge() -> bool { std::env::args().any(|a| a == "--huge") }
 
-fn gen_pair(rng: &mut Rng, big: bool) -> (Vec<u8>, Vec<u8>) {
+/// `force`: the shape of the new binary (the end-to-end installs of a big run cycle through the shapes that make the
+/// decoder seek backwards and forwards over more than one read buffer of the base).
+fn gen_pair(rng: &mut Rng, big: bool, force: Option<usize>) -> (Vec<u8>, Vec<u8>) {
     let huge = args_huge();
-    let scale = if huge { 1 << (18 + rng.below(5)) } else if big { 1 << (10 + rng.below(10)) } else { 1 + rng.below(96) };
-    let olen = 1 + rng.below(scale);
+    let scale = if huge { 1 << (18 + rng.below(5)) }
+        else if big { if force.is_some() { 1 << (15 + rng.below(5)) } else { 1 << (10 + rng.below(10)) } }
+        else { 1 + rng.below(96) };
+    let olen = if force.is_some() { scale / 2 + rng.below(scale / 2) } else { 1 + rng.below(scale) };
     let older: Vec<u8> = match rng.below(4) {
         0 => vec![rng.next() as u8; olen],
         1 => (0..olen).map(|i| (i % 7) as u8).collect(),
         _ => rng.bytes(olen),
     };
-    let newer = match rng.below(13) {
+    let shape = rng.below(13);
+    let newer = match force.unwrap_or(shape) {
         10 => older[rng.below(older.len())..].to_vec(),                                               // leading section removed
         11 => { let k = rng.below(older.len() + 1); let mut v = older[k..].to_vec(); v.extend(&older[..k]); v }   // two sections swapped
         12 => { let k = rng.below(older.len()); let mut v = older[k..].to_vec(); let n = rng.below(16); v.extend(rng.bytes(n)); v } // tail of the base, then new bytes
@@ -87,7 +92,8 @@ fn main() {
     let mut stats = serde_json::json!({"pairs": 0, "garbage_streams": 0, "e2e_installs": 0, "e2e_failures": 0, "zstd_mismatch": 0, "max_len": 0});
     for i in 0..count {
         let mut rng = Rng(seed.wrapping_mul(0x9E3779B97F4A7C15).wrapping_add(i.wrapping_mul(0xD1B54A32D192ED03)) ^ 0xC0DEC);
-        let (older, newer) = gen_pair(&mut rng, big);
+        let force = if big && i < e2e { Some([11usize, 10, 12, 7, 11, 5][(i % 6) as usize]) } else { None };
+        let (older, newer) = gen_pair(&mut rng, big, force);
         let ms = real_matches(&older, &newer);
         let stream = raw_diff(&older, &newer);
         let mtxt: Vec<String> = ms.iter().map(|m| format!("{}:{}:{}:{}", m.0, m.1, m.2, m.3)).collect();
